@@ -20,6 +20,7 @@
 (* computed at their linearisation point) that explain the log so far -    *)
 (* the powerset construction makes the trace spec deterministic, so the    *)
 (* verdict is an invariant (confs # {}) and never a rejected trace.  A     *)
+(* (`tret` of a granted guard also says whether it is a Fetch, i.e. Clone.) *)
 (* `tret` keeps the configurations in which that call has been linearised  *)
 (* (silent Lin steps, closed under all orders) with the logged outcome.    *)
 (* Sound: if the real operations are linearizable, the real order of       *)
@@ -212,7 +213,7 @@ TrTRet ==
             IN /\ confs' = {[c EXCEPT !.pend = Del(@, {e.t})] : c \in good}
                /\ ok' = [ok EXCEPT !.c08lin = @ /\ good # {}, !.tool = @ /\ (e.k = "guard" => e.g \notin DOMAIN guards)]
                /\ dead' = (good = {})
-               /\ guards' = IF e.k = "guard" THEN Put(guards, e.g, G(p.id, IF p.op = "clone" THEN "r" ELSE p.mode, p.op = "clone" \/ p.mode = "r"))
+               /\ guards' = IF e.k = "guard" THEN Put(guards, e.g, G(p.id, IF p.op = "clone" THEN "r" ELSE p.mode, e.cl))
                             ELSE IF p.op = "drop" THEN Del(guards, {p.g})
                             ELSE guards
 
